@@ -60,6 +60,10 @@ def correspond(ctx):
     # inbound context evaluated in ALL row orders (joins <= 4 parents) against Mistral.Ctx, and the monitor
     # "the upstream context does not depend on the order the rows are listed when no publishers are concurrent"
     par.run_parallel(ctx, 'harness.ctx_stream', 'run_chunk', [{'n_histories': ctx.n(100, 3000)}] * 14)
+    # the tie of join_verdict_order_independent / possibleRoute_congr: the REAL _get_join_logical_state on generated
+    # graphs with synthetic task rows against Mistral.Join
+    par.run_parallel(ctx, 'harness.join_stream', 'run_chunk',
+                     [{'n_programs': ctx.n(8, 200), 'rows_per_program': ctx.n(8, 20)}] * 14)
 
 
 def search(ctx):
